@@ -72,6 +72,14 @@ def runNego (args : List String) : Res :=
         spec := hsSpec s c o,
         tags := s!"en={b2s s.enabled}{b2s c.enabled} normS={s.enabled && (outOfRange s.serverBits || outOfRange s.clientBits)} normC={c.enabled && (outOfRange c.serverBits || outOfRange c.clientBits)} real={rest == ["r"]}" }
     | _, _ => bad "nego-hs-pd"
+  | ["hsseq", sp, cps] =>
+    match readPD sp, (cps.splitOn ";").mapM readPD with
+    | some s, some cs =>
+      let os := cs.map (handshake s)
+      { out := " | ".intercalate (os.map fun o => s!"s={showPD o.server} c={showPD o.client} offer={showHdr o.offer} resp={showHdr o.response}"),
+        spec := if (cs.zip os).all (fun (c, o) => hsSpec s c o == "ok") then "ok" else "bad:some-handshake",
+        tags := s!"hsseq n={cs.length}" }
+    | _, _ => bad "nego-hsseq-pd"
   | ["parse", h] =>
     let hdr := strOfHex h
     let r := permessageNegotiation hdr
